@@ -143,6 +143,12 @@ theorem exit_simN (S : Sem St) {L iter : List String} {mr : MR St} {sr : SR St} 
   · exact ⟨by rw [h.1], h.2.1, h.2.2⟩
   · exact ⟨h.1, by rw [h.2.1], h.2.2⟩
 
+theorem withExit_sim (S : Sem St) {L iter : List String} {mr : MR St} {sr : SR St} (h : Sim L iter mr sr) :
+    Sim L iter (withExitWrap S mr) (sWithExitWrap S sr) := by
+  cases mr <;> cases sr <;> simp only [Sim, withExitWrap, sWithExitWrap] at h ⊢
+  · exact ⟨by rw [h.1], h.2.1, h.2.2⟩
+  · exact ⟨h.1, by rw [h.2.1], h.2.2⟩
+
 theorem catch_simN (S : Sem St) {L iter : List String} (hasCatch : Bool) (param : String)
     {runC : List String → St → MR St} {srunC : St → SR St} {r1 : MR St} {s1 : SR St}
     (h : SimN L iter r1 s1) (hc : ∀ σ1, SimN L iter (runC [] σ1) (srunC σ1)) :
